@@ -62,8 +62,16 @@ impl<T: Write + Send + 'static> Worker<T> {
             let handle_result = self.handle_try_recv(&try_recv_result);
             worker_state = handle_result?;
         }
-        self.writer.flush()?;
-        Ok(worker_state)
+        let flushed = self.writer.flush();
+        match worker_state {
+            // If the batch ended because we were told to shut down (or every
+            // sender is gone), a failed flush must not make us forget that:
+            // returning the error here would send the worker back to waiting
+            // for messages, the guard's drop would time out, and the writer
+            // would never be released.
+            WorkerState::Shutdown | WorkerState::Disconnected => Ok(worker_state),
+            _ => flushed.map(|_| worker_state),
+        }
     }
 
     /// Creates a worker thread that processes a channel until it's disconnected
